@@ -198,17 +198,24 @@ def known_findings(prop):
 
 # ---------------------------------------------------------------------------------- evidence
 def write_evidence(prop, tier, seed, level, coverage, wall_s, violations, assumptions):
-    os.makedirs(os.path.join(VERIF, "evidence"), exist_ok=True)
+    evdir = os.environ.get("VERIF_EVIDENCE_DIR") or os.path.join(VERIF, "evidence")   # override only for tooling (seeded matrix)
+    os.makedirs(evdir, exist_ok=True)
     ev = {"property_id": prop, "tier": tier, "seed": int(seed), "level": level,
           "coverage": coverage, "assumptions": assumptions, "wall_s": round(wall_s, 2),
           "violations": int(violations)}
-    path = os.path.join(VERIF, "evidence", prop + ".json")
+    path = os.path.join(evdir, prop + ".json")
     tmp = path + ".tmp"
     with open(tmp, "w", encoding="utf-8") as f:
         json.dump(ev, f, indent=1, ensure_ascii=False, sort_keys=False)
         f.write("\n")
     os.replace(tmp, path)
     return path
+
+
+def replay_dir():
+    d = os.environ.get("VERIF_REPLAY_DIR") or os.path.join(VERIF, "replays")
+    os.makedirs(d, exist_ok=True)
+    return d
 
 
 def repo_state():
